@@ -32,7 +32,7 @@ SPECIALS = [None, None, None, "compact-entries", "compact-string-entries", "spar
 SIMPLE_TYPES = ["string", "integer", "bool", "color", "dimen", "id", "drawable", "layout", "mipmap", "fraction", "raw", "xml"]
 COMPLEX_TYPES = ["array", "style", "plurals", "attr"]
 LOCALES = [("en", ""), ("de", ""), ("fr", "FR"), ("pt", "BR"), ("zh", "CN"), ("en", "GB"), ("ja", ""), ("es", "ES")]
-LOCALES3 = [("fil", ""), ("es", "419"), ("haw", "US"), ("ast", ""), ("en", "001"), ("kok", "IN")]
+LOCALES3 = [("fil", ""), ("es", "419"), ("haw", "US"), ("ast", ""), ("en", "001"), ("kok", "IN"), ("tzm", ""), ("zgh", "MA"), ("yue", "HK"), ("sah", ""), ("wae", "CH"), ("en", "987")]
 DENSITIES = [120, 160, 213, 240, 320, 480, 640, 0xFFFE, 0xFFFF]
 SDKS = [4, 21, 26, 31]
 ID = "abcdefghijklmnopqrstuvwxyz_0123456789"
@@ -266,25 +266,46 @@ def leaf_ok(v, got, strings_ok=True):
     return c27.expected_ok(v.dtype, v.data & 0xFFFFFFFF, got)
 
 
-def expected_resolution(m, rid, depth=0):
-    """-> list of (cfgkey, leaf) where leaf = Value (plain/compact) or list of Values/nested tuples (complex), config=None semantics"""
+def stored_entries(m, rid, defects=()):
+    """[(cfgkey, Entry)] as stored; with the modelled defect 'script' configurations that differ only in localeScript/localeVariant share one
+    dictionary slot: first key, last value"""
+    lst = [(model_cfg_key(c), e) for c, e in m.res.get(rid, [])]
+    if "script" not in defects:
+        return lst
+    slots = {}
+    for ck, e in lst:
+        if ck[:6] in slots:
+            slots[ck[:6]] = (slots[ck[:6]][0], e)
+        else:
+            slots[ck[:6]] = (ck, e)
+    return list(slots.values())
+
+
+def expected_resolution(m, rid, defects=(), pool=(), depth=0):
+    """-> list of (cfgkey, leaf) where leaf = Value (plain/compact) or list of Values/nested tuples (complex), config=None semantics.
+    defects: modelled known defects for the explain-away re-run: 'compact' (data of a compact entry is looked up as a string index whatever its
+    type, references in compact entries are not followed), 'script' (see stored_entries)"""
     out = []
-    for cfg, e in m.res.get(rid, []):
-        ck = model_cfg_key(cfg)
+    if depth > 50:
+        return out
+    for ck, e in stored_entries(m, rid, defects):
         if e.kind == "complex":
             arr = []
             for name, v in e.items:
                 if v.dtype == R.T_REF:
                     if v.data:
-                        arr.extend(expected_resolution(m, v.data, depth + 1))
+                        arr.extend(expected_resolution(m, v.data, defects, pool, depth + 1))
                 else:
                     arr.append(v)
             out.append((ck, arr))
         else:
             v = e.value
-            if v.dtype == R.T_REF:
+            if e.kind == "compact" and "compact" in defects:
+                d = v.data & 0xFFFFFFFF
+                out.append((ck, R.Value(R.T_STRING, d, pool[d] if d < len(pool) else "")))
+            elif v.dtype == R.T_REF:
                 if v.data:
-                    out.extend(expected_resolution(m, v.data, depth + 1))
+                    out.extend(expected_resolution(m, v.data, defects, pool, depth + 1))
             else:
                 out.append((ck, v))
     return out
@@ -411,6 +432,7 @@ def check_table(ctx, m, idx):
         wit["arsc_hex"] = data.hex()
     else:
         wit["arsc_len"] = len(data)
+    pool_strings = R.read_back(data)["strings"]
     layout_of = {}
     for p in m.table.packages:
         for tid0, t in enumerate(p.types):
@@ -508,7 +530,7 @@ def check_table(ctx, m, idx):
         want_keys = Counter(model_cfg_key(c) for c, _ in stored)
         got_keys = Counter(real_cfg_key(c) for c, _ in g)
         if got_keys != want_keys:
-            if sp == "locale-script" and len(set(k[:6] for k in want_keys)) < len(want_keys):
+            if got_keys == Counter(ck for ck, _ in stored_entries(m, rid, ("script",))):
                 bad("configs-differing-only-in-locale-script-or-variant-collapsed", "configurations that differ only in localeScript/localeVariant are merged into one",
                     rid="%08x" % rid, got=len(got_keys), want=len(want_keys))
             else:
@@ -560,9 +582,10 @@ def check_table(ctx, m, idx):
         if g is not KeyError:
             r = match_resolution(want, g)
             if r:
-                if reaches_nonstring_compact(m, rid):
+                # explain-away re-run: a known mechanism is named only if the result is EXACTLY what that defect alone produces
+                if reaches_nonstring_compact(m, rid) and match_resolution(expected_resolution(m, rid, ("compact",), pool_strings), g) is None:
                     mech = "compact-entry-non-string-value-resolved-as-string-index"
-                elif reaches_script_collision(m, rid):
+                elif reaches_script_collision(m, rid) and match_resolution(expected_resolution(m, rid, ("script",), pool_strings), g) is None:
                     mech = "configs-differing-only-in-locale-script-or-variant-collapsed"
                 elif has_ref:
                     mech = "resolve-through-reference-%s-%s-%s" % (r[0], enc, sp)
